@@ -64,12 +64,13 @@ PROPERTIES = {
 }
 
 translate_tie.describe(PROPERTIES, "C04", "(here: MessageID.IsExtended/ToCAN/Validate of pkg/dbc/messageid.go = msgid_is_extended/msgid_to_can/"
-                       "msgid_valid; identifiers.IsAlphaChar/IsNumChar = the model's character classes; the Validate methods of "
+                       "msgid_valid; Identifier.Validate = Dbc/Validate.v validate = the byte-wise ident_valid; identifiers.IsAlphaChar/IsNumChar = the "
+                       "model's character classes; the Validate methods of "
                        "SignalValueType, EnvironmentVariableType, AccessType, AttributeValueType, ObjectType = the acceptance tests of "
-                       "the parser model)", translate_tie.TIE_NOTE_INT)
-translate_tie.describe(PROPERTIES, "C12", "(here: identifiers.IsAlphaChar/IsNumChar and the Validate methods of SignalValueType, "
+                       "the parser model)", translate_tie.TIE_NOTE_INT, translate_tie.TIE_NOTE_LOOP)
+translate_tie.describe(PROPERTIES, "C12", "(here: Identifier.Validate = validate = the byte-wise ident_valid; identifiers.IsAlphaChar/IsNumChar and the Validate methods of SignalValueType, "
                        "EnvironmentVariableType, AccessType, AttributeValueType, ObjectType = the character classes and acceptance "
-                       "tests of the parser model)", translate_tie.TIE_NOTE_INT)
+                       "tests of the parser model)", translate_tie.TIE_NOTE_INT, translate_tie.TIE_NOTE_LOOP)
 
 RULES = {
     "C04": "seeded grammar generator in the Go harness: files of 0..40 definitions over the 16 dispatching kinds + unknown lines "
